@@ -328,6 +328,22 @@ package phase0
 //@   requires spec != nil
 //@   ensures r != nil && r.MinSlashingPenaltyQuotient == spec.MIN_SLASHING_PENALTY_QUOTIENT && r.ProportionalSlashingMultiplier == spec.PROPORTIONAL_SLASHING_MULTIPLIER && r.InactivityPenaltyQuotient == spec.INACTIVITY_PENALTY_QUOTIENT
 
+// ---------------------------------------------------------------- is_valid_genesis_state (C13)
+// genesis_time >= MIN_GENESIS_TIME and at least MIN_GENESIS_ACTIVE_VALIDATOR_COUNT validators active at the genesis epoch
+// number of validators among the first i that are active at epoch ep
+//@ defrec reg_act_count(ever int, reg RegIp, ep int, i int) int = ite(i <= 0, 0, reg_act_count(ever, reg, ep, i - 1) + ite(v_act(reg_val(reg, i - 1)) <= ep && ep < v_exit(ever, reg_val(reg, i - 1)), 1, 0))
+//@ sort RegIp = common.ValidatorRegistry
+//@ func IsValidGenesisState(spec, state) (ok, err)
+//@   property C13
+//@   use reg_len_nonneg
+//@   requires spec != nil && state != nil
+//@   assigns ghost(n_viter), ghost(viter_pos), ghost(viter_reg)
+//@   ensures too_early: err == nil && !st_gentime_err(state) && st_gentime(state) < spec.MIN_GENESIS_TIME ==> !ok
+//@   ensures valid: err == nil ==> !st_gentime_err(state) && (ok == (st_gentime(state) >= spec.MIN_GENESIS_TIME && reg_act_count(n_val_write, st_vals(state), common.GENESIS_EPOCH, reg_len(st_vals(state))) >= spec.MIN_GENESIS_ACTIVE_VALIDATOR_COUNT))
+//@   loop 1
+//@     invariant validators == st_vals(state) && viter_reg == validators && fnid(valIterNext) == n_viter && 0 <= viter_pos && viter_pos <= reg_len(validators) && n_val_write == old(n_val_write) && genTime == st_gentime(state)
+//@     invariant activeCount == reg_act_count(n_val_write, validators, common.GENESIS_EPOCH, viter_pos) && activeCount <= viter_pos
+
 // BEGIN C18 generated (tools/gen_c18.py in /verif)
 // cancelled: a context cancelled before the call makes it fail; surfaced: a cancellation observed by a poll
 // during the call makes it fail; polled: success after a poll means the context was not cancelled at entry.
